@@ -8,6 +8,7 @@ import (
 	"encoding/json"
 	"errors"
 	"fmt"
+	"github.com/ajitpratap0/GoSQLX/pkg/formatter"
 	"os"
 	"path/filepath"
 	"runtime/debug"
@@ -359,6 +360,8 @@ const (
 	qInj    = "SELECT * FROM users WHERE id = 1 OR 1 = 1 -- x"
 	qLint   = "select a,b  from t \nWHERE a = 1   "
 	qShort  = "SELECT 1"
+	qCommA  = "-- head A\nSELECT a, -- first A\n b /* second A */ FROM t -- tail A\n"
+	qCommB  = "/* one B */ SELECT x -- two B\nFROM u /* three B */ WHERE y = 1 -- four B\n"
 )
 
 func dumpTree(t *ast.AST, err error) string {
@@ -465,6 +468,29 @@ var Ops = []Op{
 			ast.ReleaseAST(t)
 		}
 		return s
+	}},
+	// commented texts: the tokenizer keeps the comments of its last input in a slice of its own; whoever reads them must
+	// be done before the instance goes back to the pool
+	{Name: "formatter-commented", F: func() string {
+		s, err := formatter.New(formatter.Options{}).Format(qCommA)
+		if err != nil {
+			return "ERR: " + err.Error()
+		}
+		return s
+	}},
+	{Name: "tokenize-commented", F: func() string {
+		tkz := tokenizer.GetTokenizer()
+		toks, err := tkz.Tokenize([]byte(qCommB))
+		var sb strings.Builder
+		if err != nil {
+			sb.WriteString("ERR: " + err.Error())
+		}
+		fmt.Fprintf(&sb, "%d tokens", len(toks))
+		for _, c := range tkz.Comments {
+			fmt.Fprintf(&sb, " [%s]", c.Text)
+		}
+		tokenizer.PutTokenizer(tkz)
+		return sb.String()
 	}},
 	{Name: "stats", NoCompare: true, F: func() string {
 		s := metrics.GetStats()
